@@ -2,7 +2,8 @@
 
 Output._adjust_axis / _adjust_axes / _save_plot / _legend / _get_plot_options are executed for real against a small
 STATEFUL stand-in for the matplotlib Axes / pyplot objects (abstract state: labels, title, font sizes, per-tick-label
-rotation and size, ticks, limits, scales, grid arguments, figure size, margins, savefig arguments).  The
+rotation and size, ticks, limits (widened by set_ticks as matplotlib does), scales, grid arguments, figure size, margins,
+savefig arguments).  The
 postconditions read that state, not call names, so an equivalent idiom passes.  Assumed (not decided): matplotlib
 renders what its setters were given.  Bounded: every single option and every pair of options, one sample value each."""
 import contextlib
@@ -69,8 +70,17 @@ class FakeAxes(object):
                     if "labelsize" in kw:
                         l.fontsize = kw["labelsize"]
 
-    def set_xticks(self, t, **kw): self.s["xticks"] = list(t)
-    def set_yticks(self, t, **kw): self.s["yticks"] = list(t)
+    def _ticks(self, which, t):
+        # matplotlib: "the view limits are expanded to include all given ticks" (Axis.set_ticks); the view starts as [0, 1]
+        self.s[which + "ticks"] = list(t)
+        lim = self.s[which + "lim"] if self.s[which + "lim"] is not None else [0.0, 1.0]
+        if len(t):
+            new = [min(lim[0], min(t)), max(lim[1], max(t))]
+            if new != lim or self.s[which + "lim"] is not None:
+                self.s[which + "lim"] = new
+
+    def set_xticks(self, t, **kw): self._ticks("x", t)
+    def set_yticks(self, t, **kw): self._ticks("y", t)
     def set_xticklabels(self, t, **kw): self.s["xticklabels_text"] = list(t)
     def set_yticklabels(self, t, **kw): self.s["yticklabels_text"] = list(t)
     def set_xlim(self, *a, **kw): self.s["xlim"] = list(a[0]) if len(a) == 1 else list(a)
@@ -140,8 +150,9 @@ OPTS = {
     "gs": ({"grid_style": "--"}, lambda a, p, ax: a["grid"] is not None and (a["grid"].get("linestyle") == "--" or a["grid"].get("ls") == "--")),
     "gc": ({"grid_color": "green"}, lambda a, p, ax: a["grid"] is not None and (a["grid"].get("color") == "green" or a["grid"].get("c") == "green")),
     "gw": ({"grid_lw": "2"}, lambda a, p, ax: a["grid"] is not None and (a["grid"].get("lw") == "2" or a["grid"].get("linewidth") == "2")),
-    "xticks": ({"xticks": [1.0, 2.0]}, lambda a, p, ax: a["xticks"] == [1.0, 2.0]),
-    "yticks": ({"yticks": [3.0, 4.0]}, lambda a, p, ax: a["yticks"] == [3.0, 4.0]),
+    # (one tick of each sample lies outside the sample limits: explicit limits must still win)
+    "xticks": ({"xticks": [1.0, 12.0]}, lambda a, p, ax: a["xticks"] == [1.0, 12.0]),
+    "yticks": ({"yticks": [-3.0, 0.5]}, lambda a, p, ax: a["yticks"] == [-3.0, 0.5]),
     "xticklabels": ({"xticklabels": ["p", "q"]}, lambda a, p, ax: a["xticklabels_text"] == ["p", "q"]),
     "yticklabels": ({"yticklabels": ["r", "s"]}, lambda a, p, ax: a["yticklabels_text"] == ["r", "s"]),
     "xlim": ({"xlim": [0.0, 9.0]}, lambda a, p, ax: a["xlim"] == [0.0, 9.0]),
